@@ -496,18 +496,30 @@ FixedVArray<T>::setitem_vector (PyObject* index, const FixedVArray<T>& data)
         boost::python::throw_error_already_set();
     }
 
+    // The source may be this array, an alias or a masked reference of it
+    // (v[1:3] = v[mask]): like a Python sequence, read all of it before
+    // writing any of it.
+    std::vector<std::vector<T> > copy;
+    const bool aliased = data._ptr == _ptr;
+    if (aliased)
+    {
+        copy.reserve (sliceLength);
+        for (size_t i = 0; i < sliceLength; ++i)
+            copy.push_back (data[i]);
+    }
+
     if (_indices)
     {
         for (size_t i = 0; i < sliceLength; ++i)
         {
-            _ptr[raw_ptr_index(start + i*step)*_stride] = data[i];
+            _ptr[raw_ptr_index(start + i*step)*_stride] = aliased ? copy[i] : data[i];
         }
     }
     else
     {
         for (size_t i = 0; i < sliceLength; ++i)
         {
-            _ptr[(start + i*step)*_stride] = data[i];
+            _ptr[(start + i*step)*_stride] = aliased ? copy[i] : data[i];
         }
     }
 }
@@ -556,12 +568,23 @@ FixedVArray<T>::setitem_vector_mask (const FixedArray<int>& mask,
                  "either masked or unmasked");
         }
 
+        // read all of the source before writing: data may be a masked
+        // reference of this array (v[m1] = v[m2])
+        std::vector<std::vector<T> > copy;
+        const bool aliased = data._ptr == _ptr;
+        if (aliased)
+        {
+            copy.reserve (count);
+            for (size_t i = 0; i < count; ++i)
+                copy.push_back (data[i]);
+        }
+
         Py_ssize_t dataIndex = 0;
         for (size_t i = 0; i < len; ++i)
         {
             if (mask[i])
             {
-                _ptr[i*_stride] = data[dataIndex];
+                _ptr[i*_stride] = aliased ? copy[dataIndex] : data[dataIndex];
                 dataIndex++;
             }
         }
